@@ -105,3 +105,56 @@ _nl.loops = {1: LoopSpec(counter='kk', ghost_post=list(_w.ghost_post), variant=_
 CONTRACTS[(PATH, 'BaseEngineLineOCR.process_lines', 'no_logits')] = _nl
 
 KEYS = [(PATH, 'BaseEngineLineOCR.process_lines'), (PATH, 'BaseEngineLineOCR.process_lines', 'no_logits')]
+
+
+# ---------------------------------------------------------------------------------------------------
+# PageOCR.process_page: the results of process_lines are put back onto the lines they belong to
+
+PP_PATH = 'pero_ocr/document_ocr/page_parser.py'
+NPL = z3.Int('n_page_lines')
+PLINE = z3.Function('PAGE_LINE', z3.IntSort(), z3.IntSort())          # q-th line of lines_iterator()
+R_T = z3.Function('RESULT_transcription', z3.IntSort(), Val)
+R_L = z3.Function('RESULT_logits', z3.IntSort(), Val)
+R_C = z3.Function('RESULT_coords', z3.IntSort(), Val)
+
+
+def _page_lines(ex, st, obj, *a):
+    st.assume(NPL >= 0)
+    return ArrayVal((NPL,), lambda q: ObjRef(PLINE(to_int(q)), 'TextLine'), 'obj')
+
+
+def _process_lines_model(ex, st, name, base, args, kwargs):
+    """self.ocr_engine.process_lines(crops): three lists with one entry per crop, in the order of the crops (the contract of
+    process_lines proved above: position q holds the result of crop q)"""
+    if name == 'process_lines':
+        from pyvc.arrays import as_array
+        n = as_array(st, args[0]).shape[0]
+        ex.assumed.append('callee contract (proved above for BaseEngineLineOCR.process_lines): one (transcription, logits, frame window) per crop, at the position of the crop')
+        return (ArrayVal((n,), lambda q: R_T(to_int(q)), 'val'), ArrayVal((n,), lambda q: R_L(to_int(q)), 'val'), ArrayVal((n,), lambda q: R_C(to_int(q)), 'val'))
+    return NotImplemented
+
+
+def _pp_theory(ex, st):
+    q, q2 = z3.Ints('q q2')
+    ax = [z3.ForAll([q, q2], z3.Implies(PLINE(q) == PLINE(q2), q == q2), patterns=[z3.MultiPattern(PLINE(q), PLINE(q2))])]
+    return {'NPL': NPL, 'PLINE': SpecFunc(lambda x: ObjRef(PLINE(to_int(x)), 'TextLine')), 'R_T': SpecFunc(lambda x: R_T(to_int(x))),
+            'R_L': SpecFunc(lambda x: R_L(to_int(x))), 'R_C': SpecFunc(lambda x: R_C(to_int(x)))}, ax
+
+
+_DONE = ('forall(lambda q: implies(0 <= q and q < %s, PLINE(q).transcription == R_T(q) and PLINE(q).logits == R_L(q) and '
+         'PLINE(q).logit_coords == R_C(q) and PLINE(q).characters == old(lambda: self.ocr_engine).characters))')
+_NOCROP = 'exists(lambda q: 0 <= q and q < NPL and PLINE(q).crop is None)'
+CONTRACTS[(PP_PATH, 'PageOCR.process_page')] = Contract(
+    params={'self': 'obj:PageOCR', 'img': 'val', 'page_layout': 'obj:PageLayout'},
+    fields={'crop': 'opt:val', 'transcription': 'val', 'logits': 'val', 'characters': 'val', 'logit_coords': 'val', 'id': 'val', 'ocr_engine': 'val'},
+    ghosts={'method:lines_iterator': _page_lines, 'opaque_hook': _process_lines_model},
+    theory=_pp_theory,
+    frame=['transcription', 'logits', 'characters', 'logit_coords'],
+    raises={'Exception': _NOCROP}, ensures_exc={'Exception': _NOCROP},
+    # every line of the page receives the result computed for ITS crop (q-th line <- q-th result), and the engine's character table
+    ensures=[_DONE % 'NPL'],
+    loops={0: LoopSpec(counter='k0', inv=['forall(lambda q: implies(0 <= q and q < k0, PLINE(q).crop is not None))']),
+           1: LoopSpec(counter='k1', inv=[_DONE % 'k1'])},
+)
+
+KEYS = KEYS + [(PP_PATH, 'PageOCR.process_page')]
